@@ -372,7 +372,6 @@ impl<'a, 'tcx> D<'a, 'tcx> {
                 o.push(("k", J::s("AddrOf")));
                 o.push(("mut", J::Bool(matches!(m, rustc_ast::Mutability::Mut))));
                 o.push(("e", self.expr(x)));
-                want_ty = false;
             }
             hir::ExprKind::Break(_, x) => {
                 o.push(("k", J::s("Break")));
